@@ -162,14 +162,40 @@ func (w *world) call(res *dns.Resolver, api, name string, sc *script) *outcome {
 			out.Hung = true
 			break
 		}
-		d, started := rec.nextWake(vtime.Now())
-		if !started && waits < 40 {
+		now := vtime.Now()
+		d, started := rec.nextWake(now)
+		if !started && waits < 400 {
 			// nothing has reached the upstream yet: the call is still on its way (real time), no timer is involved
 			waits++
 			continue
 		}
+		// Never let the clock move while the resolver is about to do, or is in the middle of, network I/O that needs
+		// the upstream: with every goroutine parked in the poller the runtime would jump straight to the next timeout.
+		if what, nconn := rec.expect(now); what != "" && waits < 400 {
+			a0 := w.up.activity.Load()
+			if svx.Poll(400*time.Millisecond, func() bool {
+				if isDone() {
+					return true
+				}
+				_, n := rec.expect(now)
+				return n > nconn || w.up.activity.Load() != a0
+			}) {
+				waits++
+				continue
+			}
+			w.e.Rec.Count("driver_expected_event_missing:"+what, 1)
+		}
+		if !netQuiet(w.up.addr.Port()) && waits < 400 {
+			svx.Poll(400*time.Millisecond, func() bool { return isDone() || netQuiet(w.up.addr.Port()) })
+			waits++
+			continue
+		}
+		a0 := w.up.activity.Load()
 		vtime.Advance(d)
 		virt += d
+		// every timer of a lookup produces something observable (a resend arrives, a TCP connection is made, the call
+		// returns): wait for it before judging the situation again
+		svx.Poll(400*time.Millisecond, func() bool { return isDone() || w.up.activity.Load() != a0 })
 	}
 	if out.Hung {
 		// let the call go: cancel, give it plenty of virtual time; a goroutine that still does not return makes the world unusable
